@@ -350,7 +350,8 @@ class observing:
         install()
         self._prev = (getattr(_tl, "sink", None), getattr(_tl, "idlog", None))
         _tl.sink = self.logs
-        _tl.idlog = self.ids
+        if self.ids is not None:
+            _tl.idlog = self.ids
         return self
 
     def __exit__(self, *a):
